@@ -416,8 +416,8 @@ def bfs_cfg(tier):
         d = int(os.environ['VERIF_DEEP'])
         return [('plain', 'ab', d, 'small'), ('rainbow', 'ab', d, 'small'), ('plain', 'a', d, 'small'), ('restart1', '', d - 1, 'small')]
     if tier == 'quick':
-        return [('plain', 'a', 2), ('plain', 'a-a', 2), ('rainbow', 'ab', 2), ('plain', '', 2), ('restart1', '', 1), ('restart2', '', 1), ('dup1', '', 1), ('dup2', '', 1), ('stack3', '', 1)]
-    return [('plain', 'a', 3), ('plain', 'a-a', 2), ('rainbow', 'ab', 3), ('plain', '', 3), ('rainbow', 'a-a', 2), ('plain', 'ab', 3), ('restart1', '', 2), ('restart2', '', 2), ('dup1', '', 2), ('dup2', '', 2), ('stack3', '', 2)]
+        return [('plain', 'a', 2), ('plain', 'a-a', 2), ('rainbow', 'ab', 2), ('plain', '', 2), ('restart1', '', 1), ('restart2', '', 1), ('dup1', '', 1), ('dup2', '', 1), ('stack3', '', 1), ('esc', '', 1)]
+    return [('plain', 'a', 3), ('plain', 'a-a', 2), ('rainbow', 'ab', 3), ('plain', '', 3), ('rainbow', 'a-a', 2), ('plain', 'ab', 3), ('restart1', '', 2), ('restart2', '', 2), ('dup1', '', 2), ('dup2', '', 2), ('stack3', '', 2), ('esc', '', 2)]
 
 
 def sweep_pool(tier, seed):
@@ -498,6 +498,8 @@ def run_task(task, acc):
     seed_hists = {'restart1': [['plain', 'a-a'], ['apply', R0['W'], 0, 3, True], ['apply', R0['R'], 1, 2, False]],
                   'restart2': [['plain', 'a-a'], ['apply', R0['R'], 0, 3, True], ['apply', R0['B'], 0, 3, True], ['remove', R0['R'], 0, 1]],
                   # three settings on one character, the outer two ending together, the middle one later (before the end)
+                  # a base text that contains a complete SGR sequence (taken verbatim by assign_str)
+                  'esc': [['plain', 'abzzzzz'], ['apply', R0['R'], 0, 5, True], ['assign', 'a\x1b[1mb']],
                   'stack3': [['plain', 'a-ab'], ['apply', R0['R'], 0, 2, True], ['apply', R0['W'], 0, 3, True], ['apply', R0['U'], 0, 2, True]]}
 
     def gen(v, hh):
